@@ -57,6 +57,11 @@ def gen_cases(tier, seed):
     for i, _ in enumerate(table_ids()):
         for v in range(0, 256):
             yield Case(2001, [i, v, 3], [], 'subfunction name in a derived table')
+    # ... and carries, next to its constants, attributes that are not identifiers at all (a description, helper lists / maps, a None
+    # placeholder, a float): only int constants and (low, high) tuples name identifiers
+    for i, _ in enumerate(table_ids()):
+        for v in range(0, 256):
+            yield Case(2001, [i, v, 5], [], 'subfunction name in a derived table with helper attributes')
     # the value handed over as an IntEnum member / instance of an int subclass (how applications name their own sessions, reset types ...)
     for i, _ in enumerate(table_ids()):
         for v in range(0, 256):
@@ -97,6 +102,16 @@ def derived(t):
     return _derived[t]
 
 
+_derived_h = {}
+
+
+def derived_helpers(t):
+    if t not in _derived_h:
+        _derived_h[t] = type('Oem' + t.__name__, (t,), {'AAA_description': 'manufacturer values', 'aliases': ['a', 'b'], 'byName': {'x': 1}, 'mmm_placeholder': None,
+                                                        'scale': 2.0, 'zz_unit': 'ms', '_private_note': b'\x01', 'K_half': 0.5})
+    return _derived_h[t]
+
+
 class IntValue(int):
     """an integer that is not the interpreter's cached small-int object (an enum.IntEnum member behaves the same)"""
 
@@ -122,6 +137,13 @@ def m_ostr(f):
 
 
 def impl(c):
+    try:
+        return impl_inner(c)
+    except Exception as e:      # no lookup of the library raises for an in-range value; the oracle re-runs it and reports the input
+        return [-2, err_code(e)]
+
+
+def impl_inner(c):
     from udsoncan import DataIdentifier, Routine, Dtc
     from udsoncan.ResponseCode import ResponseCode
     i, v = c.ints[:2]
@@ -129,6 +151,8 @@ def impl(c):
         return enc_str(redefined(c).get_name(v))
     if len(c.ints) > 2 and c.ints[2] == 3:
         return enc_str(derived(_tables[i]).get_name(v))
+    if len(c.ints) > 2 and c.ints[2] == 5:
+        return enc_str(derived_helpers(_tables[i]).get_name(v))
     if len(c.ints) > 2 and c.ints[2] == 4:
         v = IntValue(v)
     elif len(c.ints) > 2:
@@ -202,15 +226,15 @@ def oracle(c, r):
         if not (0 <= v <= 255):
             return None
         cls = _tables[i]
-        look = derived(cls) if len(c.ints) > 2 and c.ints[2] == 3 else cls
+        look = derived(cls) if len(c.ints) > 2 and c.ints[2] == 3 else (derived_helpers(cls) if len(c.ints) > 2 and c.ints[2] == 5 else cls)
         try:
             n = look.get_name(v)
         except Exception as e:
-            return ('subfn-raises', '%s.get_name(%d) raised %s' % (cls.__qualname__, v, type(e).__name__))
+            return ('subfn-raises', '%s.get_name(%d) raised %s' % (look.__qualname__, v, type(e).__name__))
         ints, ranges = members(cls)
         exact = [k for k, x in ints if x == v]
         inr = [k for k, (lo, hi) in ranges if lo <= v <= hi]
-        custom = 'Custom %s' % getattr(cls, '__pretty_name__', cls.__name__)
+        custom = 'Custom %s' % getattr(look, '__pretty_name__', look.__name__)
         ok = (n in exact) if exact else ((n in inr) if inr else n == custom)
         if not ok:
             return ('subfn-name', '%s.get_name(%#x) = %r; constants with that value: %r, ranges containing it: %r' % (cls.__qualname__, v, n, exact, inr))
